@@ -551,7 +551,8 @@ def python_side(job, obs, meta=None):
     pyfails = []
     for c, rec in zip(job["calls"], obs["calls"]):
         if not rec["ok"] and not rec.get("skipped"):
-            pyfails.append({"key": "run-failed:" + (rec["exc"] or {}).get("cls", "diagnostics"), "detail": json.dumps(rec.get("exc") or rec["diags"][:2])[:300]})
+            pyfails.append({"key": "run-failed:" + (rec["exc"] or {}).get("cls", "command-line" if c["op"] == "cli" else "diagnostics"),
+                            "detail": json.dumps(rec.get("exc") or rec["diags"][:2] or rec.get("output", ""))[:300]})
     if not obs.get("reports"):
         pyfails.append({"key": "report-not-written", "detail": ""})
     else:
